@@ -171,6 +171,8 @@ def oracle_C02(case, obs):
     bad = []
     L = case["labware"]
     for i, (op, st) in enumerate(zip(case["ops"], obs["steps"])):
+        if st["exc"] in ("VolumeOverflowError", "VolumeUnderflowError") and st.get("is_violation") is False:
+            bad.append(f"error-class: call {i} ({op['op']}) raised {st['exc']}, which is not a VolumeViolationException")
         if nonfinite(st):
             bad.append(f"finite: a non-finite volume is stored after call {i} ({op['op']})")
             break
@@ -726,6 +728,12 @@ def tip_action_record(op, case):
 def oracle_C07(case, obs):
     bad = []
     L = case["labware"]
+    for i, (op, st) in enumerate(zip(case["ops"], obs["steps"])):
+        if op["op"] == "transfer" and case["dev"] != "base" and not lw_args_ok(case, op):
+            if st["exc"] is None:
+                bad.append(f"unknown-id: call {i}: a transfer naming a well that does not exist was accepted")
+            elif any(r[:2] in ("A;", "D;") for r in st["recs"]):
+                bad.append(f"unknown-id: call {i}: a transfer naming a well that does not exist raised {st['exc']} but left {[r for r in st['recs'] if r[:2] in ('A;', 'D;')][:2]}")
     mv = Fraction(case["wl"]["max_volume"])
     for i, (op, st) in enumerate(zip(case["ops"], obs["steps"])):
         mv = mv_before(case, i)
